@@ -26,6 +26,10 @@ THEOREMS = [
     "Cog.Sem.OA.C01_openapi_parser_sound_partial", "Cog.Sem.OA.C01_openapi_parser_sound_fuel_partial",
     "Cog.Sem.OA.C01_openapi_end_to_end_partial", "Cog.Sem.OA.C01_openapi_parser_sound_counterexample",
     "Cog.Front.OpenApi.parser_sound", "Cog.Front.OpenApi.sound_core", "Cog.Front.OpenApi.frontEnd_spec", "Cog.Front.OpenApi.oview_of",
+    # the same for CUE inputs (model of internal/simplecue on the view of the cue.Value; verifkit/front_cue.py)
+    "Cog.Sem.CUE.C01_cue_parser_sound_partial", "Cog.Sem.CUE.C01_cue_parser_sound_fuel_partial", "Cog.Sem.CUE.C01_cue_parser_sound_agree_partial",
+    "Cog.Sem.CUE.C01_cue_end_to_end_partial", "Cog.Sem.CUE.C01_cue_parser_sound_counterexample",
+    "Cog.Front.Cue.parser_sound", "Cog.Front.Cue.sound_core", "Cog.Front.Cue.def_sound",
 ]
 
 
@@ -44,6 +48,22 @@ def canon(text):
 
 
 STATS = {"model_unsup": 0, "model_fuel": 0, "compared": 0}
+
+# (round 4) shapes only C01's c01-rows stream switches on in the shared lab generator / printers / document
+# generator: members typed by a union of constants or of references to small enums (zero-valued members
+# among them), CUE spelling variants, and the zero-valued member of an enum-like optional member as a document
+LAB_SHAPES = {"switches": "+union.consts", "cuespell": "mixed", "docswitches": "+zero.enum"}
+ROUND4_PROPOSED = os.path.join(VERIF, "checks", "c01.round4.proposed_findings.json")
+
+
+def load_round4_proposed(c):
+    """entries of checks/c01.round4.proposed_findings.json that known_findings.json does not hold yet are treated as known"""
+    try:
+        prop = json.load(open(ROUND4_PROPOSED)).get("findings", [])
+    except (OSError, ValueError):
+        return
+    have = {f["id"] for f in c.known}
+    c.known += [f for f in prop if f["id"] not in have and f.get("property") == c.pid]
 
 
 def reconcile(req, impl, model):
@@ -364,13 +384,16 @@ def main():
         sys.exit(1)
     quick = c.tier == "quick"
     n, docs = (30, 30) if quick else (400, 40)
+    load_round4_proposed(c)
     rows = []
     pinned_terms = os.path.join(VERIF, "corpus", "C01.sexp")
     if os.path.exists(pinned_terms):
         # hand-written terms for shapes the random generator rarely reaches (arrays of maps, maps of arrays,
         # nested collections); processed first, the driver's schema store is redefined by the generated batch
-        rows += harness(hb, "c01-rows", file=pinned_terms, docs=24, seed=c.seed, tier=c.tier, timeout=3600)
-    rows += harness(hb, "c01-rows", n=n, docs=docs, seed=c.seed, tier=c.tier, timeout=7200)
+        # (round 4) pinned terms are printed in the ALTERNATIVE CUE spelling (`string & time.Time`, `int`, `uint`,
+        # `number`, constraints first), the generated batch mixes both spellings per node
+        rows += harness(hb, "c01-rows", file=pinned_terms, docs=24, seed=c.seed, tier=c.tier, timeout=3600, **dict(LAB_SHAPES, cuespell="alt"))
+    rows += harness(hb, "c01-rows", n=n, docs=docs, seed=c.seed, tier=c.tier, timeout=7200, **LAB_SHAPES)
     skips = {}
     for r in rows:
         if r[0] == "-" and r[1].startswith("skip"):
